@@ -66,4 +66,22 @@ theorem meshRot_neg (a b ca sa : K) : Gen.meshRot (-a) (-b) ca sa = (-(Gen.meshR
 theorem meshRot_unrotated (a b : K) : Gen.meshRot a b 1 0 = (a, b) := by
   unfold Gen.meshRot; ext <;> simp
 
+/-- half-turn symmetry and mirror symmetry about the origin ROW give mirror symmetry about the origin COLUMN -/
+theorem column_mirror_of_half_turn_and_row_mirror (g : Int → Int → K) (c0 c1 : Int)
+    (hh : ∀ i j, g (2 * c0 - i) (2 * c1 - j) = g i j) (hr : ∀ i j, g (2 * c0 - i) j = g i j) (i j : Int) :
+    g i (2 * c1 - j) = g i j := by
+  have h := hh (2 * c0 - i) j
+  rw [show 2 * c0 - (2 * c0 - i) = i by ring] at h
+  rw [h, hr]
+
+/-- a 2 × 2 binary rectangle on a 6 × 6 array over ℚ -/
+def exRect (i j : Int) : ℚ := rectangleAt (1 / 2) 6 6 2 2 0 0 1 0 false i j
+
+theorem exRect_border (i j : Int) : exRect 0 j = 0 ∧ exRect i 0 = 0 := by
+  constructor <;>
+  · unfold exRect rectangleAt meshCoord Gen.meshCoord Gen.meshRot
+    simp only [absK_eq_abs, minK_eq_min]
+    norm_num [clip01, binarise]
+    split_ifs <;> simp_all <;> linarith
+
 end Lentil
